@@ -175,13 +175,17 @@ func (c *vC11) check(delay time.Duration, cycles int) {
 // only after the previous one returned), each at an arbitrary instant inside
 // the burst, each carrying an arbitrary membership value.
 func H_C11_bus() {
-	setMerge(true)
-	vC11Preempt()
-	sharedFields("balancing", "rebalanceTimer")
 	k := 2
 	if tierThorough() {
-		k = 3
+		k = 3 // three notifications, every order at blocking points (with a pre-emption as well, even for two notifications, the run does not finish in half an hour: measured)
 	}
+	vC11Bus(k, 0)
+}
+
+func vC11Bus(k int, preempt int) {
+	setMerge(true)
+	setPreempt(preempt)
+	sharedFields("balancing", "rebalanceTimer")
 	c := vC11Setup(false)
 	fx := c.fx
 	fx.s.Open()
@@ -192,7 +196,11 @@ func H_C11_bus() {
 		val := 2
 		if i > 0 {
 			// the first notification arrives at t=0 and changes the assignment; later ones are arbitrary
-			at += gaps[choose("gap", len(gaps))]
+			g := gaps
+			if i >= 2 {
+				g = []time.Duration{0, 9 * time.Second} // third notification: back to back or at the far end of the window
+			}
+			at += g[choose("gap", len(g))]
 			val = 1 + choose("member", 2)
 		}
 		when := at
